@@ -202,6 +202,53 @@ func TestVerifScenario_C05_reward_block_division_by_zero(t *testing.T) {
 	fmt.Println("SCENARIO-OK reward block completed")
 }
 
+// C04: a one-time-payment post is priced for the time until its expiry height -- also when (Expires-height)*6 seconds
+// does not fit an int64. (2^64+172802)/6 blocks wrap to 172802 seconds, i.e. two days.
+func TestVerifScenario_C04_pay_once_duration_wraps(t *testing.T) {
+	k, l, ctx := sSetup(t)
+	ms := keeper.NewMsgServerImpl(*k)
+	a := sAddr(1)
+	sFund(l, a, 1_000_000_000_000)
+	price := func(m string, expires int64) (sdk.Int, error) {
+		msg := &types.MsgPostFile{Creator: a.String(), Merkle: []byte(m), FileSize: 1_000_000_000, MaxProofs: 3, ProofType: 0, Note: "{}", Expires: expires}
+		if err := msg.ValidateBasic(); err != nil {
+			return sdk.Int{}, err
+		}
+		before := l.get(a).AmountOf("ujkl")
+		_, err := ms.PostFile(sdk.WrapSDKContext(ctx), msg)
+		return before.Sub(l.get(a).AmountOf("ujkl")), err
+	}
+	h := ctx.BlockHeight()
+	twoDays, err := price("two-days", h+2*14400)
+	if err != nil {
+		fmt.Println("SCENARIO-ERROR", err)
+		return
+	}
+	year, err := price("one-year", h+365*14400)
+	if err != nil {
+		fmt.Println("SCENARIO-ERROR", err)
+		return
+	}
+	const far = int64(3074457345618287403) // (2^64 + 172802) / 6
+	forever, err := price("forever", h+far)
+	if err != nil {
+		fmt.Println("SCENARIO-OK a post whose duration does not fit is refused:", err)
+		return
+	}
+	f, _ := k.GetFile(ctx, []byte("forever"), a.String(), h)
+	if forever.LT(year) {
+		fmt.Printf("SCENARIO-VIOLATION 3 GB posted until block %d (about 5.8e11 years away) was accepted and debited %sujkl: the price of two days (%sujkl), while one year costs %sujkl\n", f.Expires, forever, twoDays, year)
+		return
+	}
+	fmt.Printf("SCENARIO-OK far expiry priced %s (one year: %s)\n", forever, year)
+}
+
+// The machine-range obligations of PostFile: the plan usage sum and the pay-once duration.
+func TestVerifScenario_PostFile_machine_range(t *testing.T) {
+	TestVerifScenario_C07_plan_usage_wraps(t)
+	TestVerifScenario_C04_pay_once_duration_wraps(t)
+}
+
 func sPlan(k *keeper.Keeper, ctx sdk.Context, a sdk.AccAddress, space int64) {
 	k.SetStoragePaymentInfo(ctx, types.StoragePaymentInfo{Start: ctx.BlockTime(), End: ctx.BlockTime().Add(time.Hour * 24 * 60), SpaceAvailable: space, SpaceUsed: 0, Address: a.String()})
 }
